@@ -540,7 +540,11 @@ static int parse_args(char *rest)
 }
 
 static const char *cur = "";
-static void on_alarm(int s) { (void)s; printf("HANG %s\n", cur); fflush(stdout); _exit(5); }
+static void on_alarm(int s)
+{ /* async-signal-safe only */
+  (void)s; if (write(1, "\nHANG ", 6) < 0 || write(1, cur, strlen(cur)) < 0 || write(1, "\n", 1) < 0) _exit(6);
+  _exit(5);
+}
 
 static void do_open(const char *mode)
 {
@@ -598,7 +602,7 @@ int main(int argc, char **argv)
         int e, lvl;
         if (n > 1) { snapshot(0); hb = fnv(14695981039346656037ull, SN, SNlen);
           if (verbose && k == 0) { printf("BEFORE\n"); fwrite(SN, 1, SNlen, stdout); printf("ENDDUMP\n"); } }
-        alarm(6);
+        alarm(30);
         if (call(name)) { printf("UNKNOWN-OP %s\n", name); alarm(0); break; }
         alarm(0);
         if (RSKIP) { printf("SKIP\n"); break; }
